@@ -384,7 +384,7 @@ fn violation_strategy() -> impl Strategy<Value = Input> {
 }
 
 fn run(ctx: &Ctx) {
-    let n = ctx.share(ctx.tier.pick(150_000, 3_000_000));
+    let n = ctx.share(ctx.tier.pick(1_500_000, 15_000_000));
     let strat = (
         prop_oneof![
             4 => boundary_strategy(),
